@@ -202,6 +202,25 @@ def check(ctx):
             for v, bi, si in bad[:4]:
                 ctx.fail('C05.8', ctx.site(b, bi, si), 'the decoder refuses on a condition of its own inside the arm of known tag %s: some envelopes the writer emits under that tag do not decode' % v,
                          key='C05.8|tag|%s' % v)
+            # ... and none that hangs on a case / shape test of an element it has just decoded (array arm: the subject and the assertion
+            # elements): what may stand where is the checked constructor's business, which the writers go through too
+            def elem_test(x):
+                x = strip_sites(detry(x))
+                if x[0] == 'discr':
+                    if m_call(x[1], name='branch') is not None:
+                        return False
+                    x = strip_sites(x[1])
+                if x[0] != 'call' or not (call_name(x).startswith('is_') or call_name(x) in ('case', 'has_assertions')):
+                    return False
+                return contains(x, lambda y: isinstance(y, tuple) and y and y[0] == 'call' and call_name(y) == 'from_untagged_cbor')
+            for bi, si, t in errs:
+                for passing in (True, False):
+                    ok_, _info = guard_dominates(b, tb, [bi], elem_test, passing)
+                    if ok_:
+                        bad.append(('elem', bi, si))
+                        ctx.fail('C05.8', ctx.site(b, bi, si), 'the decoder refuses on a case / shape test of an element it has just decoded: envelopes the constructors build '
+                                 '(and the writer emits) with that shape do not decode', key='C05.8|element-test')
+                        break
             if not bad:
                 ctx.ok('C05.8', ctx.site(b), 'no refusal of the decoder\'s own inside the arms of the %d known tag values (only `?` of payload decoders / checked constructors)' % len(known),
                        sample=str(sorted(known)))
